@@ -54,6 +54,17 @@ def _worker(args):
                                     num_features=padding.PaddingType.POWERS_OF_2 if pad else padding.PaddingType.NONE)
     return p, converters.TrialToModelInputConverter.from_problem(p, padding_schedule=sched)
 
+  # record what the eagle strategy is seeded with (prior points, their rewards) and the pool it starts from
+  seeded = []
+  _orig_init = eagle_strategy.VectorizedEagleStrategy.init_state
+
+  def _init_state(self, seed_, n_parallel=1, *, prior_features=None, prior_rewards=None):
+    st_ = _orig_init(self, seed_, n_parallel, prior_features=prior_features, prior_rewards=prior_rewards)
+    if prior_features is not None and prior_rewards is not None:
+      seeded.append((prior_features, np.asarray(prior_rewards), st_.features))
+    return st_
+  eagle_strategy.VectorizedEagleStrategy.init_state = _init_state
+
   cases, objs = [], []
   for it in its:
     r = C.rng(seed, 'c19/%d' % it)
@@ -94,16 +105,22 @@ def _worker(args):
     if kind == 'corner':
       tgt = np.array([r.choice([0., 1.]) for _ in range(8)])
     prior, needle = None, None
-    if r.random() < 0.5:
+    many = strat == 'eagle' and it % 8 == 3          # more prior points than the pool has room for; the best one is the oldest
+    if many:
+      kind = 'needle'
+      tag['score'] = kind
+    if many or r.random() < 0.5:
       trials = []
-      for _ in range(r.choice([1, 3, 6])):
+      for _ in range(r.choice([110, 140]) if many else r.choice([1, 3, 6])):
         params = {('x%d' % i): r.random() for i in range(ncont)}
         params.update({('c%d' % j): chr(97 + r.randrange(kk)) for j, kk in enumerate(cats)})
         trials.append(vz.Trial(parameters=params))
       prior = conv.to_features(trials)
       needle = (jnp.asarray(prior.continuous.padded_array[0]), jnp.asarray(prior.categorical.padded_array[0]))
     tag['prior'] = prior is not None
+    tag['n_prior'] = 0 if prior is None else int(prior.continuous.padded_array.shape[0])
     evals = []
+    del seeded[:]
 
     def raw(cont, cat):
       t = jnp.asarray(tgt)[:cont.shape[-1]]
@@ -177,9 +194,23 @@ def _worker(args):
       pr = np.asarray(raw(jnp.asarray(prior.continuous.padded_array), jnp.asarray(prior.categorical.padded_array)))
       pr = pr[np.isfinite(pr)]
       if pr.size and not np.isnan(rew).any() and rew.max() < pr.max() - 1e-9:
+        # The listed finding: the optimiser is seeded with the prior points but never counts them as candidates.  It only
+        # explains this input if the strategy really started from the best prior point; otherwise the seeding itself lost it.
+        retained = True
+        if strat == 'eagle' and seeded:
+          pf_, prw_, pool_ = seeded[0]
+          pc_, pk_ = np.asarray(pf_.continuous), np.asarray(pf_.categorical)
+          qc_, qk_ = np.asarray(pool_.continuous), np.asarray(pool_.categorical)
+          fin_ = np.where(np.isfinite(prw_), prw_, -np.inf)
+          present = [i for i in range(pc_.shape[0])
+                     if any(np.array_equal(pc_[i], qc_[j]) and np.array_equal(pk_[i], qk_[j]) for j in range(qc_.shape[0]))]
+          retained = bool(present) and max(fin_[i] for i in present) >= fin_.max() - 1e-9
         kf = 'C19-prior-points-are-not-candidates'
-        if kf in known:
+        if retained and kf in known:
           rep.known(kf, known[kf]['what'])
+        elif not retained:
+          viol('the result is worse than the best prior point, and the strategy was not started from that point (the pool it was '
+               'seeded with contains no prior point as good)', dict(out, best_prior=float(pr.max()), n_prior=tag['n_prior']))
         else:
           viol('the result is worse than the best prior point', dict(out, best_prior=float(pr.max())))
     res2 = opt(score_fn, count=count, prior_features=prior, seed=jax.random.PRNGKey(it))
